@@ -133,4 +133,6 @@ def jobs(tier):
         js.append(Job(f"perimeter-identities-n{n}", "c20:identities", dict(n=n, what="perimeter"), budget_s=600, weight=3))
     for n in (3, 4):
         js.append(Job(f"perimeter-scaling-n{n}", "c20:identities", dict(n=n, what="perimeter-scaling"), budget_s=600, weight=5))
+    from harness import c20_tissue
+    js += c20_tissue.jobs(tier)
     return js
